@@ -28,6 +28,28 @@ def escGo (nl : Bool) : List Byte → List Byte → List Byte
       escGo nl (out' ++ [LF] ++ startB) r
     else escGo nl (out ++ [x]) r
 
+/-- Token-level specification of the scanner: marker tokens become `?`; with
+`nl`, each line feed closes the envelope before it (or drops a start marker
+that immediately precedes it) and reopens it afterwards. -/
+def escTok (nl : Bool) : List Tok → List Tok → List Tok
+  | out, [] => out
+  | out, .s :: r => escTok nl (out ++ [.b 0x3F]) r
+  | out, .e :: r => escTok nl (out ++ [.b 0x3F]) r
+  | out, .b x :: r =>
+    if nl && x == LF then
+      let out' := if out.getLast? = some .s then out.dropLast else out ++ [.e]
+      escTok nl (out' ++ [.b LF, .s]) r
+    else escTok nl (out ++ [.b x]) r
+
+/-- A marker would be formed across the boundary between `a` and `b`. -/
+def straddles (a b : List Byte) : Bool :=
+  match a.reverse, b with
+  | 0xE2 :: _, 0x80 :: 0xB9 :: _ => true
+  | 0xE2 :: _, 0x80 :: 0xBA :: _ => true
+  | 0x80 :: 0xE2 :: _, 0xB9 :: _ => true
+  | 0x80 :: 0xE2 :: _, 0xBA :: _ => true
+  | _, _ => false
+
 /-- Trailing line feeds and spaces removed, never reaching below `startLoc`. -/
 def trimTail (b : List Byte) (startLoc : Nat) : List Byte :=
   let pre := b.take startLoc
